@@ -27,7 +27,8 @@ def cases(draw, tier):
     lanes = draw(st.integers(1, 4 if big else 2))
     n = nl['pi'] + len(nl['st'])
     waves = draw(W.input_waves(n, lanes))
-    actrl = draw(st.one_of(st.none(), st.lists(st.tuples(st.sampled_from([-1, 0, 0, 1, 2, 3]), st.integers(-3, 3), st.integers(-3, 3)),
+    WT = st.one_of(st.integers(-3, 3), st.integers(-3, 3), st.sampled_from([40000, -70000, 100000, 32768]))      # weights are plain integers: also beyond 16 bits
+    actrl = draw(st.one_of(st.none(), st.lists(st.tuples(st.sampled_from([-1, 0, 0, 1, 2, 3]), WT, WT),
                                                min_size=4, max_size=12)))
     return dict(nl=nl, lanes=lanes, waves=waves, dpool=draw(W.DELAY_POOL), caps=draw(W.CAPS), f64=draw(st.booleans()),
                 strip_forks=draw(st.booleans()), cuda=draw(st.sampled_from([False, False, True])),
